@@ -46,7 +46,7 @@ PROPS = {
     "C04": dict(lean=["Mav.Props.C04"], groups=[("C04", sizes(1, 1))],
                 spec_domain=lambda op: op.startswith(("msgenc ", "msgdec ")),
                 trusted=["Go slice/append aliasing is not modelled in Lean: buffer ownership is decided by the harness (payload handed over as a sub-slice of a poisoned backing array, compared before/after)"]),
-    "C05": dict(lean=["Mav.Props.C05"], groups=[("C05", sizes(150, 6000))],
+    "C05": dict(lean=["Mav.Props.C05", "Mav.Props.C05b"], groups=[("C05", sizes(150, 6000))],
                 trusted=["bufio.Reader / io.ReadFull behaviour folded into the flat stream model (Mav/Model/Reader.lean); validated by TIE-D under many chunkings"],
                 partial=["segmentation independence: by correspondence (every stream read under several chunkings vs the flat model), not by a Lean refinement theorem"]),
     "C06": dict(lean=["Mav.Props.C06"], groups=[("C06", sizes(120, 4000))],
